@@ -137,6 +137,8 @@ let () =
   let embed_first : result option ref = ref None in
   let layout_group : (int * result) list ref = ref [] in
   let distinct : (string, unit) Hashtbl.t = Hashtbl.create 4096 in
+  let prev_vis : (string * string * string list) option ref = ref None in
+  let lm_seen : (string, string) Hashtbl.t = Hashtbl.create 1024 in
   let kinds_lits s = String.concat ";" (List.map (fun tk -> match String.split_on_char '|' tk with a :: b :: _ -> a ^ "|" ^ b | _ -> tk) (String.split_on_char ';' s)) in
   (* direct position check of the implementation's tokens against the source text *)
   let lexpos src impl =
@@ -211,7 +213,7 @@ let () =
           if got <> expected then mismatch "FMT" (Printf.sprintf "text=%S maxw=%s cursor=%s font=%s nl=%s impl=%S model=%S" (unhex hextext) maxw cursor fontid numlines
                (if String.length expected > 3 then unhex (String.sub expected 3 (String.length expected - 3)) else expected)
                (match r with Some x -> string_of_text x | None -> "ERR"))
-      | "GOFAIL" :: o :: msg :: _ -> fail o msg
+      | "GOFAIL" :: o :: msg :: _ -> decr idx; fail o msg; incr idx   (* belongs to the case on the previous line *)
       | ["CASE"; opt; lint; sw; lmraw; cfg; fontspec; clifont; climax; expect; hexsrc; kind; payload] ->
           incr total; incr e2ec;
           Hashtbl.replace distinct (String.concat "\t" [opt; lint; sw; lmraw; cfg; fontspec; clifont; climax; hexsrc]) ();
@@ -289,6 +291,43 @@ let () =
                | _ -> ());
               layout_group := []
             end
+          end;
+          (* ---- direct scans of the implementation's output against what the author wrote ---- *)
+          (match impl with
+           | ROk out when lint = "0" ->
+               let need = List.exists has ["closed"; "optim"; "scopes"; "mapscripts"; "lists"; "textterm"; "hoist"; "cmdline"] in
+               if need then begin
+                 match parse_model is_l is_d is_s autovars switches fcx true (text_of_string clifont) (zi (int_of_string climax)) (text_of_string src) with
+                 | Some p ->
+                     let run name f = if has name then List.iteri (fun k m -> if k < 1 then fail name (Printf.sprintf "%s [optimize=%s] src=%S output=%S" m opt src out)) (f p out) in
+                     run "closed" Oracles.closed; run "optim" Oracles.optim; run "scopes" Oracles.scopes; run "mapscripts" Oracles.mapscripts;
+                     run "lists" Oracles.lists; run "textterm" Oracles.texts; run "hoist" Oracles.texts; run "cmdline" Oracles.cmdline;
+                     if has "hoist" then run "closed" Oracles.closed;
+                     if has "optim" then begin
+                       (* optimisation must not change hoisted data and user-visible labels: compare with the other setting *)
+                       let v = Oracles.visible p out in
+                       (match !prev_vis with
+                        | Some (psrc, popt, pv) when psrc = hexsrc ^ sw ^ cfg && popt <> opt ->
+                            if pv <> v then fail "optim" (Printf.sprintf "optimized and unoptimized outputs define different data / user-visible labels: src=%S" src)
+                        | _ -> ());
+                       prev_vis := Some (hexsrc ^ sw ^ cfg, opt, v)
+                     end
+                 | None -> ()
+               end
+           | _ -> ());
+          if has "markers" then begin
+            (match impl with
+             | ROk out ->
+                 let ul = if lint = "1" then [] else
+                   (match parse_model is_l is_d is_s autovars switches fcx true (text_of_string clifont) (zi (int_of_string climax)) (text_of_string src) with
+                    | Some p -> Oracles.script_user_labels p | None -> []) in
+                 List.iteri (fun k m -> if k < 1 then fail "markers" (Printf.sprintf "%s src=%S output=%S" m src out)) (Oracles.markers ul src lmpath out);
+                 let key = String.concat "\t" [opt; lint; sw; cfg; fontspec; clifont; climax; hexsrc] in
+                 let stripped = Oracles.strip_markers out in
+                 (match Hashtbl.find_opt lm_seen key with
+                  | Some prev -> if prev <> stripped then fail "markers" (Printf.sprintf "removing the marker lines from the -lm output does not give the -lm=false output: src=%S" src)
+                  | None -> Hashtbl.replace lm_seen key stripped)
+             | _ -> ())
           end;
           if has "sem" && lint = "0" && lmpath = "" && (mism || (sem_mode = "semall" && !sem_budget > 0)) then begin
             match impl with
